@@ -4,12 +4,16 @@
    the printer can produce (any option record, any column - i.e. every way of
    splitting a string into concatenated pieces) for the values of
    PrettyProofs.good_val, separated by arbitrary non-empty white space
-   (blanks, tabs, line breaks).  Alternative numeric spellings, comments,
-   NxA, ranges and arrays are tied to the code by the correspondence run and
-   the Spec oracle only (notes/C11.md). *)
+   (blanks, tabs, line breaks).  The widened grammar (Grammar.v: gtok, gword;
+   theorems C11_grammar_...) adds alternative integer spellings - the suffix i,
+   hexadecimal literals plain and with the suffixes i and h - decimal floating
+   point literals without exact value, and comments between the words.  NxA, ranges and arrays as text forms: C10_mixed_reads_partial
+   (Properties_C10.v).  Octal / zero-prefixed integers, exponent forms and a comment after the
+   last word are tied to the code by the correspondence run and the Spec
+   oracle only (notes/C11.md). *)
 From Coq Require Import List ZArith.
 From RtoscV Require Import Pretty.Tok Pretty.FloatFmt Pretty.PrintModel Pretty.ScanModel
-  Pretty.Grammar Pretty.PrettyProofs Pretty.RunProofs.
+  Pretty.Grammar Pretty.PrettyProofs Pretty.RunProofs Pretty.GrammarProofs.
 Import ListNotations.
 Local Open Scope Z_scope.
 
@@ -65,3 +69,47 @@ Proof. exact ex_elements. Qed.
 Theorem C11_nonvacuous :
   Forall wf_word ex_sentence /\ exists T, spell ex_sentence = Some T.
 Proof. exact ex_sentence_wf. Qed.
+
+(* THE WIDENED GRAMMAR.  A word is a token - a value in the printer's spelling
+   (GPrinted: decimal integers, "12h", characters with their escapes, true false
+   nil inf, strings, ...), a decimal integer with the suffix i (GDecI), or a
+   hexadecimal literal given by its digits, plain or with the suffix i or h
+   (GHex; its value is positional, a 32-bit literal above 0x7fffffff denotes the
+   negative number of that bit pattern), or a decimal floating point literal
+   "[-]digits.digits" without exact value, plain or with the suffix f or d
+   (GFlt; its value is what libc gives the literal: the oracles dec2f / dec2d) -
+   followed by non-empty white space and
+   any number of comments ("%" ... line break, each followed by more white space).
+   For every well-formed sentence the checker accepts with the number of words,
+   the scanner writes the denotation and consumes the whole text. *)
+Theorem C11_grammar_agree_denotes_partial : forall (dec2f dec2d : list Z -> Z) s T,
+  Forall wf_gword s -> gspell s = Some T ->
+  count_printed_arg_vals dec2f dec2d T = Ok (true, Z.of_nat (length s)) /\
+  scan_arg_vals dec2f dec2d T (Z.of_nat (length s)) = Ok (gdenote dec2f dec2d s, []).
+Proof. exact gsentences_agree. Qed.
+
+(* every token of the widened grammar is read alike by both recognisers,
+   whatever follows (end, white space, a bracket) *)
+Theorem C11_grammar_simulation_partial : forall (dec2f dec2d : list Z -> Z) g t,
+  wf_gtok g -> gtok_text g = Some t ->
+  forall rest, rest_ok rest ->
+    (forall f ll fe ib, skip_next dec2f dec2d (S f) (t ++ rest) ll fe ib = Ok (rest, 1, av_type (gtok_val dec2f dec2d g))) /\
+    (forall f before nb fe, scan_arg_val dec2f dec2d (S f) (t ++ rest) before nb fe = Ok ([gtok_val dec2f dec2d g], rest)).
+Proof. exact (fun a b g t Hw Ht => proj1 (gtok_tokof a b g t Hw Ht)). Qed.
+
+(* texts that differ only in white space and comments scan to equal values *)
+Theorem C11_grammar_ws_invariant_partial : forall (dec2f dec2d : list Z -> Z) s1 s2 T1 T2,
+  Forall wf_gword s1 -> Forall wf_gword s2 -> gdenote dec2f dec2d s1 = gdenote dec2f dec2d s2 ->
+  gspell s1 = Some T1 -> gspell s2 = Some T2 ->
+  scan_arg_vals dec2f dec2d T1 (Z.of_nat (length s1)) = scan_arg_vals dec2f dec2d T2 (Z.of_nat (length s2)).
+Proof. exact gsentences_ws_invariant. Qed.
+
+(* non-vacuity: "0x1fi % a" line break "-12i" tab "0xffffffff" line break "-0.25f true" denotes 31 -12 -1
+   the float of "-0.25" true *)
+Theorem C11_grammar_nonvacuous : forall (dec2f dec2d : list Z -> Z),
+  Forall wf_gword ex_gsentence /\
+  gspell ex_gsentence = Some [48; 120; 49; 102; 105; 32; 37; 32; 97; 10; 45; 49; 50; 105; 9;
+                              48; 120; 102; 102; 102; 102; 102; 102; 102; 102; 10;
+                              45; 48; 46; 50; 53; 102; 32; 116; 114; 117; 101] /\
+  gdenote dec2f dec2d ex_gsentence = [VI 31; VI (-12); VI (-1); VFl (dec2f [45; 48; 46; 50; 53]); VT].
+Proof. exact ex_gsentence_wf. Qed.
